@@ -57,10 +57,11 @@ def run(tier):
     pshort = tlc.run_tlc("MC_PagerProto", cfg="MC_PagerProto_regression_short", workers=1, coverage=False, timeout=300)
     if pshort.violated != "AllDelivered":
         raise core.ToolError("MC_PagerProto_regression_short (the rest of a short write is dropped) did not violate AllDelivered")
+    # a differ that talks on stderr while it succeeds (GIT_TRACE=1): status and output must be what they are without the talk;
     # a wrapped command that complains a lot (4 000 lines, far more than a pipe holds, on stderr before it writes to stdout): the
     # scenarios in which delta runs a command and the consumer stays are run a second time with such a command
     n_plain = len(scenarios)
-    scenarios = scenarios + [sc for sc in scenarios if sc["mode"] == "wrap" and sc["quit"] == 0 and sc["wf"] == "none"]
+    scenarios = scenarios + [sc for sc in scenarios if sc["mode"] in ("wrap", "diff") and sc["quit"] == 0 and sc["wf"] == "none"]
     log(f"[{PID}] fault space enumerated by TLC: {n_plain} scenarios ({mc.distinct} states), {len(scenarios) - n_plain} of them repeated with a noisy command")
     work = os.path.join(core.scratch(), "c18")
     os.makedirs(work, exist_ok=True)
@@ -102,6 +103,8 @@ def run(tier):
         elif sc["mode"] == "diff" and sc["how"] == "badopt":
             args += ["-@--no-such-differ-option", fa, fa]
         elif sc["mode"] == "diff":
+            if idx >= n_plain:
+                env["GIT_TRACE"] = "1"      # a differ that talks on stderr while it succeeds (traces, warnings about its configuration)
             if sc["status"] == 0:
                 args += [fa, fc]
             elif sc["status"] == 1:
@@ -205,7 +208,7 @@ def run(tier):
                        "allowed": allowed_logs.get((sc["quit"] > 0, bool(sc["stay"])), [])})
     for i, (sc, r, plog, ref, ref_writes) in enumerate(res):
         # (status 129 - git rejected an option -: delta shows the first line only, the usage text that follows is left out)
-        if sc.get("_idx", 0) >= n_plain and not r.timed_out and sc["status"] != 129 and r.err.count(b"\n") < 4000:
+        if sc.get("_idx", 0) >= n_plain and sc["mode"] == "wrap" and not r.timed_out and sc["status"] != 129 and r.err.count(b"\n") < 4000:
             V.violation(f"stderr-lost:{sc['out']}:{sc['status']}", f"of the 4000 lines the wrapped command wrote to stderr only {r.err.count(chr(10).encode())} "
                         f"arrived (output to {sc['out']}, child status {sc['status']})", {"scenario": sc, "run": r.to_json()})
     failed, tr = tlc.validate_trace("Trace_Pager", events)
